@@ -727,12 +727,19 @@ down (`HostDown`) whose state is still up — `C11_cex_stale_replica`. The only 
 policy does not know are those installed from outside (the hook `setReplicas`, an instrument of the harness, not a
 path of the code): for them "lists only known hosts" is an assumption on the installed table. -/
 
-/-- the replica list of the query comes from a table the policy computed itself (no table was installed from
-outside for that keyspace - session keyspace or not) or from the token ring -/
-def FreshQuery (t : TA) (ops : List TAOp) (rk : Option (Nat × Nat)) : Prop :=
+/-- the replica list of the query comes from a table the policy computed itself — session keyspace or not: no
+table was installed from outside for that keyspace, or the policy has recomputed it since (`dirtyOf`: `setReplicas ks`
+marks `ks`; `KeyspaceChanged ks` and every `AddHost` / `RemoveHost` that changes the host list clear it) — or from the
+token ring -/
+def FreshQuery (t0 : TA) (ops : List TAOp) (rk : Option (Nat × Nat)) : Prop :=
   match rk with
   | none => True
-  | some (ks, tok) => (∀ o ∈ ops, o.noInject ks) ∨ (∃ l, t.replicasFor ks tok = .hosts l false)
+  | some (ks, tok) => ks ∉ dirtyOf t0 ops ∨ (∃ l, (ops.foldl TA.apply t0).replicasFor ks tok = .hosts l false)
+
+/-- in particular: no table was ever installed from outside for the keyspace of the query -/
+theorem freshQuery_of_noInject (t0 : TA) (ops : List TAOp) (ks tok : Nat) (hn : ∀ o ∈ ops, o.noInject ks) :
+    FreshQuery t0 ops (some (ks, tok)) :=
+  Or.inl (runDirty_noInject ops (t0, []) ks (by simp) hn)
 
 theorem hostsHist_final (k : Kind) (ldc lrack : Nat) (sh nl ps : Bool) (sess : Option Nat) (ops : List TAOp) (hna : NoAlias ops) :
     ∀ x, x ∈ (ops.foldl TA.apply (TA.new (Pol.new k ldc lrack) sh nl ps sess)).hosts ↔
@@ -748,18 +755,22 @@ theorem hostsHist_final (k : Kind) (ldc lrack : Nat) (sh nl ps : Bool) (sess : O
 /-- In every reachable state (any history of AddHost / RemoveHost / HostUp / HostDown / KeyspaceChanged /
 metadata changes / replica tables installed from outside into OTHER keyspaces / picks), for every query whose
 replica list comes from a table the policy computed itself — the session keyspace's or ANY other keyspace's —
-or from the token ring: every host of the replica list is in the policy's own host list — and, the hosts of
+(never installed from outside, or recomputed since: `FreshQuery`) or from the token ring: every host of the
+replica list is in the policy's own host list — and, the hosts of
 the history having pairwise different addresses, that list is exactly the hosts added and not removed since.
 A removed host is never a replica of such a query (full for case (a) of KF-C11-5). -/
 theorem C11_replica_tables_fresh (k : Kind) (ldc lrack : Nat) (sh nl ps : Bool) (sess : Option Nat) (ops : List TAOp)
     (σ : List Host → List Host) (hσ : ∀ l, (σ l).Perm l) (rk : Option (Nat × Nat)) (hna : NoAlias ops) :
     let t := ops.foldl TA.apply (TA.new (Pol.new k ldc lrack) sh nl ps sess)
-    FreshQuery t ops rk →
+    FreshQuery (TA.new (Pol.new k ldc lrack) sh nl ps sess) ops rk →
     ∀ x ∈ (repsOf t σ rk).getD [], x ∈ t.hosts ∧ (statusOf (evsOf ops) x).known = true := by
   intro t hfq x hx
-  have hfresh : ∀ ks, (∀ o ∈ ops, o.noInject ks) → TabFresh t ks := fun ks hn =>
-    tabFresh_run ops (TA.new (Pol.new k ldc lrack) sh nl ps sess) ks
-      (fun e he => by simp [TA.new] at he) hn
+  have hfresh : ∀ ks, ks ∉ dirtyOf (TA.new (Pol.new k ldc lrack) sh nl ps sess) ops → TabFresh t ks := by
+    intro ks hn
+    have := dirty_run ops (TA.new (Pol.new k ldc lrack) sh nl ps sess, [])
+      (fun ks' _ e he => by simp [TA.new] at he) ks hn
+    rw [runDirty_fst] at this
+    exact this
   suffices h : x ∈ t.hosts from ⟨h, (hostsHist_final k ldc lrack sh nl ps sess ops hna x).mp h⟩
   cases rk with
   | none => simp [repsOf] at hx
@@ -804,8 +815,9 @@ theorem C11_replica_tables_fresh (k : Kind) (ldc lrack : Nat) (sh nl ps : Bool) 
 /-- EXACTNESS against the history (partial — see the section comments): under the hypotheses of
 `C11_tokenaware_all_states_partial`, if no host is a ghost (KF-C11-4), no host of the specified replica head
 was last reported down by `HostDown` (KF-C11-5, case (b) — the only stale-replica case left after the repair of
-KF-C10-4), and the replica list comes from a table the policy computed itself (ANY keyspace) or from the token
-ring — or else (a table installed from outside through the hook: an assumption on that table, not on the code)
+KF-C10-4), and the replica list comes from a table the policy computed itself (ANY keyspace; `FreshQuery`) or from
+the token ring — or else (a table installed from outside through the hook and not recomputed since: an assumption
+on that table, not on the code)
 lists no host that is not known, then the drained iterator offers EXACTLY the hosts the history expects, each
 once: `l` is a permutation of the expected hosts of any duplicate-free universe containing the hosts of the
 history. In particular a REMOVED host offered as replica for a query of ANY keyspace is not excused. -/
@@ -816,7 +828,7 @@ theorem C11_history_exact_partial (k : Kind) (ldc lrack : Nat) (sh nl ps : Bool)
     (∀ e ∈ t.replicas, ∀ f ∈ e.2, f.2.Nodup) →
     (∀ x, (S x).ghost = false) →
     (∀ x ∈ specHead t.pol.tier t.pol.maxTier up nl ((repsOf t σ rk).getD []), (S x).last ≠ some .hdown) →
-    (FreshQuery t ops rk ∨
+    (FreshQuery (TA.new (Pol.new k ldc lrack) sh nl ps sess) ops rk ∨
       ∀ x ∈ specHead t.pol.tier t.pol.maxTier up nl ((repsOf t σ rk).getD []), (S x).known = true) →
     ∃ l, t.pickSeq up σ rk = .seq l ∧ (Pol.below t.pol → t.pickScan up σ rk = ⟨l, false⟩) ∧ l.Nodup ∧
       (∀ x, x ∈ l ↔ (S x).expected (up x.id) = true) ∧
